@@ -8,8 +8,19 @@ package smtp
 // typestate monitor, a scripted check and a scripted modifier (package vc03); failures are injected at every
 // stage through the addresses / a header field of the message itself.
 //
-//	op line:  C03 s <S|L> <D|I> <T><partialmask>:<r0><r1><r2> <token>... [O:<fan-out order oracle>]
-//	observed: <replies per token> | <per-target delivery logs> | leak=<a>,<b> | panics=<n>
+//	op line:  C03 s <S|L> <D|I> <T><partialmask>:<r0><r1><r2> [P<peer kind><host>.<limits>] <token>... [O:<fan-out order oracle>]
+//	observed: <replies per token> | <per-target delivery logs> | leak=<a>,<b> | panics=<n> | held=<all>,<ip>,<source>
+//
+// The P token is the peer address the server sees (the accepted net.Conn is wrapped: IPv4, IPv4-mapped IPv6,
+// IPv6 with and without host bits, link-local with a zone, a unix socket address) and the limits block of the
+// endpoint (concurrency and rate limiters in the all / ip / source scopes); held= is read from the real limiter
+// state after the session (every bucket that exists, whatever key it was created under).
+//
+//	op line:  C03 t <S|L> <D|I> <a|i|s><order><rate> <k> <peer kind><host>     (TestVerifC03LimitTimeouts)
+//	observed: <reply of each of the k refused sessions> | held=<all>,<ip>,<source> | end=<all>,<ip>,<source>
+//
+// One session keeps a transaction open and with it the only permit of one scope; k other sessions start a
+// transaction, wait for the permit and are refused when TakeMsg times out.
 //
 // The monitor (c03Monitor) evaluates the property itself on the replies, the target logs and the permit
 // counters; it does not use the Lean model.
@@ -76,6 +87,8 @@ type c03Scn struct {
 	nT       int
 	partial  int
 	routes   [3]int
+	peer     string // <kind><host>: l0 = the real loopback peer, no wrapping
+	lim      int    // index into c03LimCfgs
 	toks     []string
 }
 
@@ -87,7 +100,11 @@ func (s *c03Scn) line() string {
 	if s.deferred {
 		m = "D"
 	}
-	return fmt.Sprintf("C03 s %s %s %d%d:%d%d%d %s", p, m, s.nT, s.partial, s.routes[0], s.routes[1], s.routes[2], strings.Join(s.toks, " "))
+	peer := s.peer
+	if peer == "" {
+		peer = "l0"
+	}
+	return fmt.Sprintf("C03 s %s %s %d%d:%d%d%d P%s.%d %s", p, m, s.nT, s.partial, s.routes[0], s.routes[1], s.routes[2], peer, s.lim, strings.Join(s.toks, " "))
 }
 
 func c03Parse(line string) (*c03Scn, error) {
@@ -102,13 +119,132 @@ func c03Parse(line string) (*c03Scn, error) {
 	if s.nT < 1 || s.nT > 3 {
 		return nil, fmt.Errorf("bad target count")
 	}
-	for _, t := range f[5:] {
+	s.peer = "l0"
+	for i, t := range f[5:] {
 		if strings.HasPrefix(t, "O:") {
+			continue
+		}
+		if i == 0 && strings.HasPrefix(t, "P") {
+			// P<kind><host>.<limits>
+			if len(t) != 5 || t[3] != '.' || c03PeerAddr(t[1:3]) == nil && t[1:3] != "l0" || int(t[4]-'0') >= len(c03LimCfgs) {
+				return nil, fmt.Errorf("bad peer token %q", t)
+			}
+			s.peer, s.lim = t[1:3], int(t[4]-'0')
 			continue
 		}
 		s.toks = append(s.toks, t)
 	}
 	return s, nil
+}
+
+// ---------------------------------------------------------------- peer addresses and limits
+
+// c03PeerAddr is the remote address the server is shown for a peer token (nil: the real one).
+func c03PeerAddr(peer string) net.Addr {
+	if len(peer) != 2 || peer[1] < '0' || peer[1] > '3' {
+		return nil
+	}
+	h := int(peer[1] - '0')
+	switch peer[0] {
+	case '4': // IPv4, 4-byte form
+		return &net.TCPAddr{IP: net.IP{192, 0, 2, byte(40 + h)}, Port: 40000 + h}
+	case 'm': // IPv4-mapped IPv6 (16-byte form)
+		return &net.TCPAddr{IP: net.IPv4(198, 51, 100, byte(7+h)), Port: 40010 + h}
+	case '6': // one /64: the prefix itself, two hosts of it, and a host of the next /64
+		return &net.TCPAddr{IP: net.ParseIP([]string{"2001:db8:17:4::", "2001:db8:17:4::25", "2001:db8:17:4:a1b2:c3d4:e5f6:708", "2001:db8:17:5::25"}[h]), Port: 40020 + h}
+	case 'z': // link-local with a zone
+		return &net.TCPAddr{IP: net.ParseIP(fmt.Sprintf("fe80::1:%d", h+1)), Zone: "eth0", Port: 40030 + h}
+	case 'u': // not a TCP address at all
+		return &net.UnixAddr{Name: fmt.Sprintf("/run/c03-%d.sock", h), Net: "unix"}
+	}
+	return nil
+}
+
+type c03PeerConn struct {
+	net.Conn
+	remote net.Addr
+}
+
+func (c *c03PeerConn) RemoteAddr() net.Addr { return c.remote }
+
+// c03PeerListener makes accepted connections look as if they came from the given address.
+type c03PeerListener struct {
+	net.Listener
+	remote net.Addr
+}
+
+func (l *c03PeerListener) Accept() (net.Conn, error) {
+	c, err := l.Listener.Accept()
+	if err != nil {
+		return nil, err
+	}
+	return &c03PeerConn{Conn: c, remote: l.remote}, nil
+}
+
+// c03Listen opens one more listener of the endpoint's server whose connections have the given peer address.
+func c03Listen(t *testing.T, endp *Endpoint, remote net.Addr) (string, error) {
+	var l net.Listener
+	for try := 0; ; try++ {
+		var err error
+		l, err = net.Listen("tcp", "127.0.0.1:0")
+		if err == nil {
+			break
+		}
+		// see c03Endpoint: out of ephemeral ports says nothing about the code under test
+		if try < 60 && strings.Contains(err.Error(), "address already in use") {
+			time.Sleep(time.Second)
+			continue
+		}
+		return "", err
+	}
+	endp.listenersWg.Add(1)
+	go func() {
+		endp.serv.Serve(&c03PeerListener{Listener: l, remote: remote}) //nolint:errcheck
+		endp.listenersWg.Done()
+	}()
+	return l.Addr().String(), nil
+}
+
+const (
+	c03RateBurst = 400 // never reached: a session takes at most 18 permits, the probes 2*c03Cap
+	c03Cap2      = 20
+)
+
+// limits blocks: directives "<scope> <c|d|r>" (c = concurrency c03Cap, d = concurrency c03Cap2, r = rate c03RateBurst 1h),
+// in configuration order (the order inside a scope is the order the limiters are taken in)
+var c03LimCfgs = [][]string{
+	{"all c", "ip c", "source c"},
+	{"all c", "all r", "ip c", "ip r", "source c", "source r"},
+	{"all r", "all c", "ip r", "ip c", "source r", "source c"},
+	{"ip c", "ip r"},
+	{"all c", "source c"},
+	{"all c", "ip c", "ip d", "source r", "source c"},
+}
+
+func c03LimNodes(dirs []string) []config.Node {
+	var out []config.Node
+	for _, d := range dirs {
+		f := strings.Fields(d)
+		switch f[1] {
+		case "c":
+			out = append(out, config.Node{Name: f[0], Args: []string{"concurrency", strconv.Itoa(c03Cap)}})
+		case "d":
+			out = append(out, config.Node{Name: f[0], Args: []string{"concurrency", strconv.Itoa(c03Cap2)}})
+		case "1":
+			out = append(out, config.Node{Name: f[0], Args: []string{"concurrency", "1"}})
+		case "r":
+			out = append(out, config.Node{Name: f[0], Args: []string{"rate", strconv.Itoa(c03RateBurst), "1h"}})
+		}
+	}
+	return out
+}
+
+func c03Limits(t *testing.T, dirs []string) *limits.Group {
+	lm, _ := limits.New("limits", "vc03limits", nil, nil)
+	if err := lm.(*limits.Group).Init(config.NewMap(nil, config.Node{Children: c03LimNodes(dirs)})); err != nil {
+		t.Fatal(err)
+	}
+	return lm.(*limits.Group)
 }
 
 type c03ErrLog struct {
@@ -134,9 +270,42 @@ func (l *c03ErrLog) Printf(format string, v ...interface{}) {
 func (l *c03ErrLog) Println(v ...interface{}) { l.Printf("%s", fmt.Sprintln(v...)) }
 
 func c03Endpoint(t *testing.T, s *c03Scn, elog *c03ErrLog) (*Endpoint, string) {
+	// the pipeline, as configuration text
+	var b strings.Builder
+	b.WriteString("check {\n vc03\n}\nmodify {\n vc03\n}\n")
+	for j, mask := range s.routes {
+		fmt.Fprintf(&b, "destination d%d.example {\n", j)
+		mask &= 1<<s.nT - 1
+		if mask == 0 {
+			b.WriteString(" reject 556 5.1.1 \"refused by route\"\n")
+		}
+		for k := 0; k < s.nT; k++ {
+			if mask&(1<<k) != 0 {
+				fmt.Fprintf(&b, " deliver_to &vc03t%d\n", k)
+			}
+		}
+		b.WriteString("}\n")
+	}
+	b.WriteString("default_destination {\n reject 557 5.1.1 \"unknown domain\"\n}\n")
+	endp := c03EndpointBase(t, s.lmtp, s.deferred, b.String(), c03LimCfgs[s.lim], elog)
+	for k := range c03Targets {
+		c03Targets[k].Partial = s.partial&(1<<k) != 0
+	}
+	addr := endp.listeners[0].Addr().String()
+	if remote := c03PeerAddr(s.peer); remote != nil {
+		var err error
+		if addr, err = c03Listen(t, endp, remote); err != nil {
+			t.Fatal(err)
+		}
+	}
+	return endp, addr
+}
+
+// c03EndpointBase: a real endpoint on a loopback port with the given pipeline and limits block.
+func c03EndpointBase(t *testing.T, lmtp, deferred bool, pipeline string, limDirs []string, elog *c03ErrLog) *Endpoint {
 	c03Register()
 	name := "smtp"
-	if s.lmtp {
+	if lmtp {
 		name = "lmtp"
 	}
 	// Listening on port 0 fails with EADDRINUSE when the machine has run out of ephemeral ports
@@ -154,7 +323,7 @@ func c03Endpoint(t *testing.T, s *c03Scn, elog *c03ErrLog) (*Endpoint, string) {
 		}}
 		endp.Log = log.Logger{Name: "c03", Out: log.NopOutput{}}
 		drd := "no"
-		if s.deferred {
+		if deferred {
 			drd = "yes"
 		}
 		cfg := []config.Node{
@@ -179,24 +348,7 @@ func c03Endpoint(t *testing.T, s *c03Scn, elog *c03ErrLog) (*Endpoint, string) {
 	endp.serv.ErrorLog = elog
 	endp.saslAuth = auth.SASLAuth{Log: endp.Log, Plain: []module.PlainAuth{vc03.Auth{User: c03User, Pass: c03Pass}}}
 
-	// the pipeline, from configuration text
-	var b strings.Builder
-	b.WriteString("check {\n vc03\n}\nmodify {\n vc03\n}\n")
-	for j, mask := range s.routes {
-		fmt.Fprintf(&b, "destination d%d.example {\n", j)
-		mask &= 1<<s.nT - 1
-		if mask == 0 {
-			b.WriteString(" reject 556 5.1.1 \"refused by route\"\n")
-		}
-		for k := 0; k < s.nT; k++ {
-			if mask&(1<<k) != 0 {
-				fmt.Fprintf(&b, " deliver_to &vc03t%d\n", k)
-			}
-		}
-		b.WriteString("}\n")
-	}
-	b.WriteString("default_destination {\n reject 557 5.1.1 \"unknown domain\"\n}\n")
-	nodes, err := parser.Read(strings.NewReader(b.String()), "c03")
+	nodes, err := parser.Read(strings.NewReader(pipeline), "c03")
 	if err != nil {
 		t.Fatal(err)
 	}
@@ -208,22 +360,8 @@ func c03Endpoint(t *testing.T, s *c03Scn, elog *c03ErrLog) (*Endpoint, string) {
 	endp.pipeline.Resolver = endp.resolver
 	endp.pipeline.FirstPipeline = true
 	endp.pipeline.Log = log.Logger{Name: "c03/pipeline", Out: log.NopOutput{}}
-	for k := range c03Targets {
-		c03Targets[k].Partial = s.partial&(1<<k) != 0
-	}
-
-	// limits: every scope is a semaphore of c03Cap permits
-	lm, _ := limits.New("limits", "vc03limits", nil, nil)
-	capS := strconv.Itoa(c03Cap)
-	if err := lm.(*limits.Group).Init(config.NewMap(nil, config.Node{Children: []config.Node{
-		{Name: "all", Args: []string{"concurrency", capS}},
-		{Name: "ip", Args: []string{"concurrency", capS}},
-		{Name: "source", Args: []string{"concurrency", capS}},
-	}})); err != nil {
-		t.Fatal(err)
-	}
-	endp.limits = lm.(*limits.Group)
-	return endp, endp.listeners[0].Addr().String()
+	endp.limits = c03Limits(t, limDirs)
+	return endp
 }
 
 // ---------------------------------------------------------------- wire rendering of tokens
@@ -556,6 +694,13 @@ func c03Run(t *testing.T, s *c03Scn, addr string) []c03TokRes {
 
 // ---------------------------------------------------------------- permits
 
+func c03PeerString(peer string) string {
+	if a := c03PeerAddr(peer); a != nil {
+		return a.Network() + " " + a.String()
+	}
+	return "tcp 127.0.0.1"
+}
+
 // free permits for a source domain key = how many TakeMsg succeed at once (at most c03Cap are tried)
 func c03Free(g *limits.Group, domain string) int {
 	ip := net.IPv4(127, 0, 0, 1)
@@ -596,7 +741,7 @@ func c03DelStr(d *vc03.Del) string {
 	return "[" + strings.Join(p, ";") + "]"
 }
 
-func c03Observe(s *c03Scn, res []c03TokRes, leakA, leakB, panics int) string {
+func c03Observe(s *c03Scn, res []c03TokRes, leakA, leakB, panics int, snap []vc03.LimBucket) string {
 	var r []string
 	for _, x := range res {
 		r = append(r, c03Codes(x))
@@ -611,7 +756,8 @@ func c03Observe(s *c03Scn, res []c03TokRes, leakA, leakB, panics int) string {
 		}
 		tg = append(tg, fmt.Sprintf("t%d:%s", k, strings.Join(ds, "")))
 	}
-	return fmt.Sprintf("%s | %s | leak=%d,%d | panics=%d", strings.Join(r, " "), strings.Join(tg, " "), leakA, leakB, panics)
+	ha, hi, hs := vc03.LimHeld(snap)
+	return fmt.Sprintf("%s | %s | leak=%d,%d | panics=%d | held=%d,%d,%d", strings.Join(r, " "), strings.Join(tg, " "), leakA, leakB, panics, ha, hi, hs)
 }
 
 // the iteration order Go chose for each fan-out over the deliveries map: one segment per fan-out (body
@@ -653,7 +799,7 @@ func c03Canon(a string) string {
 	return a[:at] + strings.ToLower(a[at:])
 }
 
-func c03Monitor(out *vh.Out, s *c03Scn, line string, res []c03TokRes, leakA, leakB int) {
+func c03Monitor(out *vh.Out, s *c03Scn, line string, res []c03TokRes, leakA, leakB int, snap []vc03.LimBucket) {
 	viol := func(sig, detail string) { out.Violation("C03/"+sig, line, detail) }
 
 	// typestate of every delivery opened on a target
@@ -679,6 +825,12 @@ func c03Monitor(out *vh.Out, s *c03Scn, line string, res []c03TokRes, leakA, lea
 	// permits
 	if leakA != 0 || leakB != 0 {
 		viol("permit-not-returned", fmt.Sprintf("after the session %d permit(s) for source %q and %d for the null sender are still held", leakA, c03SrcDomain, leakB))
+	}
+	// the same rule on the real limiter state, per scope and key: every limiter set that exists (whatever key it
+	// was created under) is idle once the session is over
+	for _, b := range vc03.LimBusy(snap) {
+		viol("permit-not-returned", fmt.Sprintf("after the session (peer %s) %d permit(s) of the %q scope, key %q, are still held (users=%d, semaphores in use=%v)",
+			c03PeerString(s.peer), b.InUse(), b.Scope, b.Key, b.Users, b.Sems))
 	}
 
 	// transactions as go-smtp delimits them: recipients accumulate until RSET, the end of DATA/BDAT, or the end
@@ -983,6 +1135,17 @@ func c03GenScn(r *vh.Rng) *c03Scn {
 	}
 	g := &c03Gen{r: r, s: s, pct: []int{0, 0, 0, 8, 8, 8, 20, 20, 40, 70}[r.Intn(10)]}
 	var toks []string
+	defer func(r *vh.Rng) {
+		// the peer address and the limits block: drawn from a stream of their own, so that the scripts of a
+		// seed are the ones they were before these existed
+		s.peer, s.lim = "l0", 0
+		if r.Chance(55) {
+			s.peer = r.Pick("4", "m", "6", "6", "6", "z", "u") + strconv.Itoa(r.Intn(4))
+		}
+		if r.Chance(60) {
+			s.lim = 1 + r.Intn(len(c03LimCfgs)-1)
+		}
+	}(r.Fork())
 	if r.Chance(80) {
 		// a plausible client, then damaged
 		toks = append(toks, "E")
@@ -1111,9 +1274,12 @@ func c03One(t *testing.T, out *vh.Out, s *c03Scn) {
 	}
 	cancel()
 	endp.listenersWg.Wait()
+	// the real limiter state, before the probes below create buckets of their own
+	snap := vc03.LimSnapshot(endp.limits)
 	free0 := c03Free(endp.limits, c03SrcDomain)
 	free1 := c03Free(endp.limits, "")
 	leakA, leakB := c03Cap-free0, c03Cap-free1
+	vc03.LimClose(endp.limits)
 	elog.mu.Lock()
 	panics := elog.panics
 	elines := append([]string(nil), elog.lines...)
@@ -1121,8 +1287,8 @@ func c03One(t *testing.T, out *vh.Out, s *c03Scn) {
 
 	line := s.line()
 	c03Log.Lock()
-	c03Monitor(out, s, line, res, leakA, leakB)
-	obs := c03Observe(s, res, leakA, leakB, panics)
+	c03Monitor(out, s, line, res, leakA, leakB, snap)
+	obs := c03Observe(s, res, leakA, leakB, panics, snap)
 	oracle := c03Oracle()
 	nd := len(c03Log.Dels)
 	c03Log.Unlock()
@@ -1189,6 +1355,16 @@ func c03One(t *testing.T, out *vh.Out, s *c03Scn) {
 	}
 	c03Log.Unlock()
 	out.Stat(fmt.Sprintf("cfg.lmtp=%v.deferred=%v.targets=%d", s.lmtp, s.deferred, s.nT))
+	out.Stat("peer." + s.peer[:1])
+	out.Stat(fmt.Sprintf("limits.%d", s.lim))
+	for _, b := range snap {
+		if b.Scope == "ip" {
+			out.Stat("peer." + s.peer[:1] + ".ip-bucket." + b.Key)
+		}
+	}
+	if len(snap) > 1 {
+		out.Stat("limits.buckets-after-session")
+	}
 	out.Stat(fmt.Sprintf("deliveries.%d", nd))
 	out.Stat(fmt.Sprintf("panics.%d", panics))
 	out.Stat(fmt.Sprintf("len.%02d", len(s.toks)))
@@ -1197,7 +1373,306 @@ func c03One(t *testing.T, out *vh.Out, s *c03Scn) {
 	}
 }
 
+// ---------------------------------------------------------------- limit time-outs
+
+// One session (the holder) keeps a transaction open and with it the only permit of one scope; k other
+// sessions start a transaction and are refused when TakeMsg gives up (5 s, fixed in the code).  What a
+// refused TakeMsg took in the scopes before the exhausted one has to be given back.
+type c03TScn struct {
+	lmtp, deferred bool
+	scope          byte // a, i, s: the scope with the single permit
+	order          int  // 0: the single-permit limiter is the first limiter of its scope, 1: the last
+	rate           bool // every scope has a rate limiter as well
+	k              int
+	peer           string // peer address of the holder
+}
+
+func (s *c03TScn) line() string {
+	p, m, r := "S", "I", 0
+	if s.lmtp {
+		p = "L"
+	}
+	if s.deferred {
+		m = "D"
+	}
+	if s.rate {
+		r = 1
+	}
+	return fmt.Sprintf("C03 t %s %s %c%d%d %d %s", p, m, s.scope, s.order, r, s.k, s.peer)
+}
+
+func c03TParse(line string) (*c03TScn, error) {
+	f := strings.Fields(line)
+	if len(f) != 7 || f[0] != "C03" || f[1] != "t" || len(f[4]) != 3 || c03PeerAddr(f[6]) == nil {
+		return nil, fmt.Errorf("not a C03 t line: %q", line)
+	}
+	k, err := strconv.Atoi(f[5])
+	if err != nil || k < 1 || k > 4 || !strings.ContainsRune("ais", rune(f[4][0])) {
+		return nil, fmt.Errorf("not a C03 t line: %q", line)
+	}
+	return &c03TScn{lmtp: f[2] == "L", deferred: f[3] == "D", scope: f[4][0], order: int(f[4][1] - '0'), rate: f[4][2] == '1', k: k, peer: f[6]}, nil
+}
+
+func (s *c03TScn) limDirs() []string {
+	var out []string
+	for _, sc := range []string{"all", "ip", "source"} {
+		ds := []string{"c"}
+		if s.rate {
+			ds = append(ds, "r")
+		}
+		if sc[0] == s.scope {
+			if s.order == 0 {
+				ds = append([]string{"1"}, ds...)
+			} else {
+				ds = append(ds, "1")
+			}
+		}
+		for _, d := range ds {
+			out = append(out, sc+" "+d)
+		}
+	}
+	return out
+}
+
+// peer address and sender domain of the j-th contending session: the key of the exhausted scope is the
+// holder's, the other keys differ where they can
+func (s *c03TScn) contender(j int) (peer, domain string) {
+	peer, domain = s.peer, fmt.Sprintf("other%d.example", j)
+	if s.scope != 'i' {
+		peer = s.peer[:1] + strconv.Itoa((int(s.peer[1]-'0')+1+j)%4)
+	}
+	if s.scope == 's' {
+		domain = c03SrcDomain
+	}
+	return
+}
+
+type c03TRun struct {
+	s                   *c03TScn
+	endp                *Endpoint
+	elog                *c03ErrLog
+	hAddr               string
+	bAddrs              []string
+	codes               []int
+	snap0, snap1, snap2 []vc03.LimBucket
+	err                 error
+}
+
+func (r *c03TRun) run() {
+	s := r.s
+	hello := "EHLO client.example.org\r\n"
+	if s.lmtp {
+		hello = "LHLO client.example.org\r\n"
+	}
+	open := func(addr string) (*c03Client, error) {
+		conn, err := net.Dial("tcp", addr)
+		if err != nil {
+			return nil, err
+		}
+		w := &c03Client{c: conn, tp: textproto.NewConn(conn)}
+		if code, _ := w.reply(); code != 220 {
+			return nil, fmt.Errorf("greeting %d", code)
+		}
+		w.send(hello)
+		if code, _ := w.reply(); code != 250 {
+			return nil, fmt.Errorf("hello %d", code)
+		}
+		return w, nil
+	}
+	cmd := func(w *c03Client, line string) int {
+		w.send(line + "\r\n")
+		code, _ := w.reply()
+		return code
+	}
+	h, err := open(r.hAddr)
+	if err != nil {
+		r.err = err
+		return
+	}
+	defer h.c.Close()
+	if c1, c2 := cmd(h, "MAIL FROM:<holder@"+c03SrcDomain+">"), cmd(h, "RCPT TO:<rcpt@d0.example>"); c1 != 250 || c2 != 250 {
+		r.err = fmt.Errorf("the holder could not open its transaction: %d %d", c1, c2)
+		return
+	}
+	r.snap0 = vc03.LimSnapshot(r.endp.limits)
+
+	// the contenders, at once: each waits for the permit until TakeMsg gives up
+	r.codes = make([]int, s.k)
+	cl := make([]*c03Client, s.k)
+	errs := make([]error, s.k)
+	var wg sync.WaitGroup
+	for j := 0; j < s.k; j++ {
+		wg.Add(1)
+		go func(j int) {
+			defer wg.Done()
+			w, err := open(r.bAddrs[j])
+			if err != nil {
+				errs[j] = err
+				return
+			}
+			cl[j] = w
+			_, dom := s.contender(j)
+			code := cmd(w, fmt.Sprintf("MAIL FROM:<contender%d@%s>", j, dom))
+			if s.deferred && code == 250 {
+				code = cmd(w, "RCPT TO:<rcpt@d1.example>")
+			}
+			r.codes[j] = code
+		}(j)
+	}
+	wg.Wait()
+	for _, e := range errs {
+		if e != nil {
+			r.err = e
+		}
+	}
+	r.snap1 = vc03.LimSnapshot(r.endp.limits)
+
+	// the end: contenders leave, the holder ends its transaction one way or another
+	for j, w := range cl {
+		if w == nil {
+			continue
+		}
+		if j%2 == 0 {
+			cmd(w, "QUIT")
+		}
+		w.c.Close()
+	}
+	switch (s.k + s.order) % 3 {
+	case 0:
+		if cmd(h, "DATA") == 354 {
+			h.send("From: <holder@src.example>\r\nSubject: c03\r\n\r\nbody\r\n.\r\n")
+			h.reply()
+		}
+		cmd(h, "QUIT")
+	case 1:
+		cmd(h, "RSET")
+		cmd(h, "QUIT")
+	}
+	h.c.Close()
+	ctx, cancel := context.WithTimeout(context.Background(), 60*time.Second)
+	if err := r.endp.serv.Shutdown(ctx); err != nil && r.err == nil {
+		r.err = err
+	}
+	cancel()
+	r.endp.listenersWg.Wait()
+	r.snap2 = vc03.LimSnapshot(r.endp.limits)
+	vc03.LimClose(r.endp.limits)
+}
+
+func (r *c03TRun) judge(out *vh.Out) {
+	s, line := r.s, r.s.line()
+	granted := 0
+	var cs []string
+	for _, c := range r.codes {
+		if c == 250 {
+			granted++
+		}
+		cs = append(cs, strconv.Itoa(c))
+		out.Stat(fmt.Sprintf("timeout.reply.%d", c))
+	}
+	// a transaction that was refused holds nothing: per limiter set, not more is out than before the contenders
+	// came (plus one for each of them that was let in)
+	before := map[string]int{}
+	for _, b := range r.snap0 {
+		before[b.Scope+"\x00"+b.Key] = b.InUse()
+	}
+	for _, b := range r.snap1 {
+		if was := before[b.Scope+"\x00"+b.Key]; b.InUse() > was+granted {
+			out.Violation("C03/permit-not-returned", line, fmt.Sprintf("%d transaction(s) were refused (%s) when the %q limit timed out, %d were started; %d permit(s) of the %q scope, key %q, are held (users=%d, semaphores in use=%v), %d before",
+				len(r.codes)-granted, strings.Join(cs, " "), string(s.scope), granted, b.InUse(), b.Scope, b.Key, b.Users, b.Sems, was))
+		}
+	}
+	for _, b := range vc03.LimBusy(r.snap2) {
+		out.Violation("C03/permit-not-returned", line, fmt.Sprintf("after all sessions ended %d permit(s) of the %q scope, key %q, are still held (users=%d, semaphores in use=%v)", b.InUse(), b.Scope, b.Key, b.Users, b.Sems))
+	}
+	r.elog.mu.Lock()
+	panics := r.elog.panics
+	r.elog.mu.Unlock()
+	a1, i1, s1 := vc03.LimHeld(r.snap1)
+	a2, i2, s2 := vc03.LimHeld(r.snap2)
+	obs := fmt.Sprintf("%s | held=%d,%d,%d | end=%d,%d,%d", strings.Join(cs, " "), a1, i1, s1, a2, i2, s2)
+	if panics != 0 {
+		obs += fmt.Sprintf(" | panics=%d", panics)
+	}
+	out.Corr(line, obs)
+	if vh.Replay() != nil {
+		out.Note("replay: " + line + " => " + obs + " ; before the contenders: " + vc03.LimString(r.snap0) + " ; after their time-outs: " + vc03.LimString(r.snap1) + " ; at the end: " + vc03.LimString(r.snap2))
+	}
+	out.Stat(fmt.Sprintf("timeout.scope.%c.order=%d.rate=%v", s.scope, s.order, s.rate))
+	out.Stat(fmt.Sprintf("timeout.cfg.lmtp=%v.deferred=%v", s.lmtp, s.deferred))
+	out.Stat("timeout.peer." + s.peer[:1])
+}
+
+func TestVerifC03LimitTimeouts(t *testing.T) {
+	t.Parallel() // the waits of this test overlap with TestVerifC03Sessions
+	out := vh.Open("c03_timeouts")
+	defer out.Close()
+	var scns []*c03TScn
+	if rep := vh.Replay(); rep != nil {
+		for _, l := range rep {
+			if strings.HasPrefix(l, "C03 t ") {
+				s, err := c03TParse(l)
+				if err != nil {
+					t.Fatal(err)
+				}
+				scns = append(scns, s)
+			}
+		}
+	} else {
+		n := 6
+		if vh.Thorough() {
+			n = 48
+		}
+		rng := vh.NewRng(vh.Seed()*829367861 + 977)
+		for i := 0; i < n; i++ {
+			// every scope in both modes first, the rest at random
+			scns = append(scns, &c03TScn{lmtp: rng.Chance(40), deferred: i%2 == 0, scope: "ais"[(i/2)%3], order: rng.Intn(2), rate: rng.Chance(50),
+				k: 1 + rng.Intn(3), peer: rng.Pick("4", "m", "6", "6", "z", "u") + strconv.Itoa(rng.Intn(4))})
+		}
+	}
+	const pipeline = "default_destination {\n deliver_to dummy\n}\n"
+	for len(scns) > 0 {
+		wave := scns
+		if len(wave) > 12 {
+			wave = wave[:12]
+		}
+		scns = scns[len(wave):]
+		var runs []*c03TRun
+		for _, s := range wave {
+			r := &c03TRun{s: s, elog: &c03ErrLog{}}
+			r.endp = c03EndpointBase(t, s.lmtp, s.deferred, pipeline, s.limDirs(), r.elog)
+			var err error
+			if r.hAddr, err = c03Listen(t, r.endp, c03PeerAddr(s.peer)); err != nil {
+				t.Fatal(err)
+			}
+			for j := 0; j < s.k; j++ {
+				peer, _ := s.contender(j)
+				a, err := c03Listen(t, r.endp, c03PeerAddr(peer))
+				if err != nil {
+					t.Fatal(err)
+				}
+				r.bAddrs = append(r.bAddrs, a)
+			}
+			runs = append(runs, r)
+		}
+		var wg sync.WaitGroup
+		for _, r := range runs {
+			wg.Add(1)
+			go func(r *c03TRun) { defer wg.Done(); r.run() }(r)
+		}
+		wg.Wait()
+		for _, r := range runs {
+			if r.err != nil {
+				t.Errorf("%s: %v", r.s.line(), r.err)
+				continue
+			}
+			r.judge(out)
+		}
+	}
+}
+
 func TestVerifC03Sessions(t *testing.T) {
+	t.Parallel()
 	out := vh.Open("c03_sessions")
 	defer out.Close()
 	var scns []*c03Scn
